@@ -14,6 +14,8 @@ def key(v, ev):
     if pred == "CellEq":
         s, b = info.get("src", [32, 7, 0, 0]), info.get("back", [32, 7, 0, 0])
         what = "ch" if s[0] != b[0] else "fg" if s[1] != b[1] else "bg"
+        if info.get("bom"):
+            return f"CellEq:{fmt}:file-begins-with-utf8-bom"     # the first three cells are CP437 0xEF 0xBB 0xBF and nothing is written before them
         if fmt == "avt" and info.get("prep") == 2:
             return "CellEq:avt:screen-preparation-home"          # ^V^H 1 1 is read as column 1, row 1 (zero based)
         return f"CellEq:{fmt}:{what}:prep={info.get('prep')}"
